@@ -154,6 +154,14 @@ def m_trim(it, recv, args, e, mod, discard):
     raise InternalError("trim of a non-concrete string")
 
 
+@method("filter")
+def m_filter(it, recv, args, e, mod, discard):
+    I = _I()
+    f = it.deref(args[0])
+    src = it.iterate(it.deref(recv))
+    return I.IterV(x for x in src if it.truth(it.call_value(f, [x])))
+
+
 @method("map_or")
 def m_map_or(it, recv, args, e, mod, discard):
     v = opt(it, recv)
@@ -332,6 +340,13 @@ def m_collect(it, recv, args, e, mod, discard):
     hint = e.get("turbofish") or ""
     if getattr(it, "collect_hint", None):
         hint = hint + " " + it.collect_hint
+    if "HashSet" in hint:
+        st = I.SetV()
+        for x in items:
+            x = it.deref(x)
+            if not it.truth(set_contains(it, st, x)):
+                st.items.append((True, x))
+        return st
     if "HashMap" in hint:
         m = I.MapV()
         for kv in items:
